@@ -1,14 +1,29 @@
 #!/bin/bash
-# coqmake.sh [targets...]: serialised `make -k -j16` in /verif/coq (regenerates the Makefile
-# when _CoqProject changed). Always use this instead of calling make directly, so that
-# concurrent builds do not trample each other's .vo files.
+# coqmake.sh [targets...]: `make -k -j16` in /verif/coq (regenerates _CoqProject/Makefile from the
+# fragments when they changed). Always use this instead of calling make directly.
+# Locking: a build of explicit targets takes a SHARED global lock plus an exclusive lock per
+# top-level directory of its targets (so engines do not block each other); a full build (no
+# targets) takes the global lock exclusively. 12 GB memory cap, COQ_TIMEOUT (default 1500 s).
 cd /verif/coq
 mkdir -p /verif/_work /verif/ocaml/gen
+(
+  flock 8
+  /verif/tools/coqproject.sh
+  if [ ! -f Makefile ] || [ _CoqProject -nt Makefile ]; then
+    coq_makefile -f _CoqProject -o Makefile >/dev/null || exit 3
+  fi
+) 8>/verif/_work/.lock-coq-mk || exit 3
 exec 9>/verif/_work/.lock-coq
-flock 9
-/verif/tools/coqproject.sh
-if [ ! -f Makefile ] || [ _CoqProject -nt Makefile ]; then
-  coq_makefile -f _CoqProject -o Makefile >/dev/null || exit 3
+if [ $# -eq 0 ]; then
+  flock -x 9
+else
+  flock -s 9
+  n=10
+  for d in $(for t in "$@"; do echo "${t%%/*}"; done | sort -u); do
+    eval "exec $n>/verif/_work/.lock-coq-$d"
+    flock -x $n
+    n=$((n+1))
+  done
 fi
 ulimit -v 12000000
 timeout ${COQ_TIMEOUT:-1500} make -k -j16 "$@"
